@@ -35,3 +35,396 @@ Example C15_example :
   = Dict [(KI 2, Dict [(KI (-1), Leaf SNone); (KS [122%N], Leaf SNone)]);
           (KS [97%N], Lst [Dict [(KS [98%N], Leaf SNone); (KS [97%N], Leaf SNone)]]); (KS [98%N], Leaf (SInt 1))].
 Proof. vm_compute. reflexivity. Qed.
+
+(* ================================================================================================== *)
+(* added from Properties/C15_add.v (2026-10-01)                                              *)
+(* ================================================================================================== *)
+(* C15 (continued): SDict.order_keys on the whole SDict, the order option of DictReader.read / DictWriter.write /
+   DictParser.parse, closure of the writer domain under ordering, and: an ordered file reads back to the same data
+   as the unordered one. *)
+From Coq Require Import String.
+From Coq Require Import NArith ZArith List Bool Permutation.
+From DictIO Require Import Chars Str Value Scalar KeyPath SDict Layout Lexer TokParser Reader Expr Eval Cli Parse.
+From DictIO Require Import TreeSpec NativeSpec E2ESpec E2EFullProofs OrderProofs OrderFile.
+Import ListNotations.
+
+(* ---- SDict.order_keys: the data is ordered with order_tree semantics (C15_sorted / _perm / _assoc / _lists apply to
+   it); each of the four side tables keeps its entries and is stably sorted by placeholder id ----------------------- *)
+Theorem C15_sd_order : forall s,
+  Dict (sd_data (sd_order s)) = order_tree (Dict (sd_data s)) /\
+  sd_lc (sd_order s) = tsort (sd_lc s) /\ sd_bc (sd_order s) = tsort (sd_bc s) /\
+  sd_inc (sd_order s) = tsort (sd_inc s) /\ sd_expr (sd_order s) = tsort (sd_expr s).
+Proof. exact sd_order_spec. Qed.
+Print Assumptions C15_sd_order.
+
+(* what sorting a side table means: a permutation, ids ascending, every id still finds the same entry; a table whose
+   ids ascend already (every table a reader builds, below the counter wrap) is left as it is *)
+Theorem C15_sd_order_tables : forall (V : Type) (l : list (N * V)),
+  Permutation (tsort l) l /\ ids_sorted (map fst (tsort l)) = true /\ (forall i, tlookup i (tsort l) = tlookup i l) /\
+  (ids_sorted (map fst l) = true -> tsort l = l).
+Proof. exact tsort_spec. Qed.
+Print Assumptions C15_sd_order_tables.
+
+Theorem C15_sd_order_idem : forall s, sd_order (sd_order s) = sd_order s.
+Proof. exact sd_order_idem. Qed.
+Print Assumptions C15_sd_order_idem.
+
+Example C15_sd_order_nonvacuous :
+  let s := mkSD [(KS (of_string "b"), Leaf (SInt 1));
+                 (KI 4, Dict [(KS (of_string "z"), Leaf SNone); (KI (-1), Leaf (SStr (of_string "x  y")))]);
+                 (KS (of_string "a"), Lst [Dict [(KS (of_string "q"), Leaf (SInt 1)); (KS (of_string "p"), Leaf (SInt 2))]])]
+                [(3%N, of_string "// three"); (1%N, of_string "// one")] [] [] [(7%N, (of_string "$a", of_string "EXPRESSION000007")); (2%N, (of_string "$b", of_string "EXPRESSION000002"))] in
+  sd_order s =
+    mkSD [(KI 4, Dict [(KI (-1), Leaf (SStr (of_string "x  y"))); (KS (of_string "z"), Leaf SNone)]);
+          (KS (of_string "a"), Lst [Dict [(KS (of_string "q"), Leaf (SInt 1)); (KS (of_string "p"), Leaf (SInt 2))]]);
+          (KS (of_string "b"), Leaf (SInt 1))]
+         [(1%N, of_string "// one"); (3%N, of_string "// three")] [] [] [(2%N, (of_string "$b", of_string "EXPRESSION000002")); (7%N, (of_string "$a", of_string "EXPRESSION000007"))] /\
+  sd_order s <> s /\ sd_order (sd_order s) = sd_order s.
+Proof.
+  intros s. split; [vm_compute; reflexivity|]. split; [vm_compute; discriminate|]. exact (C15_sd_order_idem s).
+Qed.
+
+(* ---- the order option of DictReader.read: reading with order=True is reading with order=False and then ordering the
+   SDict -- same counter, same error, same "outside the model"; with includes=False as well, because dropping the
+   include keys (a filter on the top-level keys) commutes with the stable sort ------------------------------------ *)
+Theorem C15_read_option : forall fs root includes comments scope count,
+  read_opts fs root includes true comments scope count =
+  match read_opts fs root includes false comments scope count with
+  | None => None
+  | Some (Raise e) => Some (Raise e)
+  | Some (Ok (s, c)) => Some (Ok (sd_order s, c))
+  end.
+Proof. exact read_order_option_x. Qed.
+Print Assumptions C15_read_option.
+
+Theorem C15_include_keys_commute : forall d,
+  remove_include_keys (kvs_of (order_tree (Dict d))) = kvs_of (order_tree (Dict (remove_include_keys d))).
+Proof. exact remove_include_keys_order. Qed.
+Print Assumptions C15_include_keys_commute.
+
+(* non-vacuity: a file with line and block comments, an include, an expression, int and str keys at two levels and a
+   list of dicts; read with and without includes; the key sequences before and after *)
+Example C15_read_option_nonvacuous :
+  let nl := String (Ascii.ascii_of_nat 10) "" in
+  let txt := of_string ("// first" ++ nl ++ "#include 'inc.dict'" ++ nl ++ "zeta 1; // c2" ++ nl ++
+                        "alpha { y 2; 3 4; x 'a  b'; }" ++ nl ++ "/* blk */" ++ nl ++ "5 ( {q 1; p 2;} 7 ); beta $zeta;" ++ nl) in
+  let inc := of_string ("mm 1; aa 2;" ++ nl) in
+  let fs : fsys := [(of_string "/d/main.dict", FNative txt); (of_string "/d/inc.dict", FNative inc)] in
+  let keys r := match r with Some (Ok (s, _)) => map fst (sd_data s) | _ => [] end in
+  let sub r := match r with Some (Ok (s, _)) => alookup (KS (of_string "alpha")) (sd_data s) | _ => None end in
+  let lst r := match r with Some (Ok (s, _)) => alookup (KI 5) (sd_data s) | _ => None end in
+  keys (read_opts fs (of_string "/d/main.dict") true false true [] (-1)) =
+    [KS (of_string "LINECOMMENT000000"); KS (of_string "INCLUDE000002"); KS (of_string "zeta"); KS (of_string "LINECOMMENT000001");
+     KS (of_string "alpha"); KS (of_string "BLOCKCOMMENT000000"); KI 5; KS (of_string "beta"); KS (of_string "mm"); KS (of_string "aa")] /\
+  keys (read_opts fs (of_string "/d/main.dict") true true true [] (-1)) =
+    [KI 5; KS (of_string "BLOCKCOMMENT000000"); KS (of_string "INCLUDE000002"); KS (of_string "LINECOMMENT000000");
+     KS (of_string "LINECOMMENT000001"); KS (of_string "aa"); KS (of_string "alpha"); KS (of_string "beta"); KS (of_string "mm"); KS (of_string "zeta")] /\
+  keys (read_opts fs (of_string "/d/main.dict") false true true [] (-1)) =
+    [KI 5; KS (of_string "BLOCKCOMMENT000000"); KS (of_string "LINECOMMENT000000");
+     KS (of_string "LINECOMMENT000001"); KS (of_string "alpha"); KS (of_string "beta"); KS (of_string "zeta")] /\
+  sub (read_opts fs (of_string "/d/main.dict") true true true [] (-1)) =
+    Some (Dict [(KI 3, Leaf (SInt 4)); (KS (of_string "x"), Leaf (SStr (of_string "a  b"))); (KS (of_string "y"), Leaf (SInt 2))]) /\
+  lst (read_opts fs (of_string "/d/main.dict") true true true [] (-1)) =
+    Some (Lst [Dict [(KS (of_string "q"), Leaf (SInt 1)); (KS (of_string "p"), Leaf (SInt 2))]; Leaf (SInt 7)]) /\
+  (forall includes,
+   read_opts fs (of_string "/d/main.dict") includes true true [] (-1) =
+   match read_opts fs (of_string "/d/main.dict") includes false true [] (-1) with
+   | None => None
+   | Some (Raise e) => Some (Raise e)
+   | Some (Ok (s, c)) => Some (Ok (sd_order s, c))
+   end).
+Proof.
+  intros nl txt inc fs keys sub lst.
+  split; [vm_compute; reflexivity|]. split; [vm_compute; reflexivity|]. split; [vm_compute; reflexivity|].
+  split; [vm_compute; reflexivity|]. split; [vm_compute; reflexivity|].
+  intros includes. exact (C15_read_option fs _ includes true [] (-1)%Z).
+Qed.
+
+(* ---- the order option of DictWriter.write.  Without append (or with nothing to append to): writing with order=True is
+   writing the ordered SDict with order=False -------------------------------------------------------------------- *)
+Theorem C15_write_option : forall fs foam target (append : bool) s count,
+  (if append then fs_lookup (norm_path target) fs else None) = None ->
+  write_sd fs foam target append true s count = write_sd fs foam target append false (sd_order s) count.
+Proof. exact write_order_option. Qed.
+Print Assumptions C15_write_option.
+
+(* parse_values, the typing pass of the writer, never raises and commutes with ordering *)
+Theorem C15_parse_values_order : forall t,
+  (exists t', parse_values_tree t = Ok t') /\
+  (forall t', parse_values_tree t = Ok t' -> parse_values_tree (order_tree t) = Ok (order_tree t')).
+Proof. intros t. exact (conj (pvt_total t) (pvt_order t)). Qed.
+Print Assumptions C15_parse_values_order.
+
+(* append onto an existing target with order=True: the target is read without ordering, ORDERED, the (typed) source is
+   merged into it, and the merged SDict is ordered again before it is serialised *)
+Theorem C15_write_option_append : forall fs foam target s count u t,
+  fs_lookup (norm_path target) fs = Some u ->
+  parse_values_tree (Dict (sd_data s)) = Ok t ->
+  let src := mkSD (kvs_of_tree t) (sd_lc s) (sd_bc s) (sd_inc s) (sd_expr s) in
+  write_sd fs foam target true true s count =
+  match read_opts fs target true false true [] count with
+  | None => None
+  | Some (Raise e) => Some (Raise e)
+  | Some (Ok (existing, c)) =>
+      let m := sd_order (sd_merge (sd_order existing) (sd_data src) (Some src)) in
+      Some (Ok (if foam then foam_to_string_sd m else to_string_sd m, c))
+  end.
+Proof. exact write_order_option_append_x. Qed.
+Print Assumptions C15_write_option_append.
+
+(* finding (SDict algebra, not reachable through a read, which has removed duplicate comments already): ordering
+   BEFORE the merge is not absorbed by ordering after it -- with two comments of the same text it decides which of
+   the two placeholders _clean keeps *)
+Example C15_append_preorder_finding :
+  let e := mkSD [(KS (of_string "LINECOMMENT000001"), Leaf (SStr (of_string "LINECOMMENT000001")));
+                 (KS (of_string "LINECOMMENT000000"), Leaf (SStr (of_string "LINECOMMENT000000")))]
+                [(1%N, of_string "// c"); (0%N, of_string "// c")] [] [] [] in
+  sd_order (sd_merge (sd_order e) [] None) <> sd_order (sd_merge e [] None).
+Proof. vm_compute. discriminate. Qed.
+
+Example C15_write_option_nonvacuous :
+  let s := mkSD [(KS (of_string "b"), Leaf (SStr (of_string "12")));
+                 (KS (of_string "LINECOMMENT000003"), Leaf (SStr (of_string "LINECOMMENT000003")));
+                 (KI 4, Dict [(KS (of_string "z"), Leaf (SStr (of_string "on")));
+                              (KS (of_string "LINECOMMENT000001"), Leaf (SStr (of_string "LINECOMMENT000001")));
+                              (KI (-1), Leaf (SStr (of_string "x  y")))]);
+                 (KS (of_string "a"), Lst [Dict [(KS (of_string "q"), Leaf (SInt 1)); (KS (of_string "p"), Leaf (SInt 2))]])]
+                [(3%N, of_string "// three"); (1%N, of_string "// one")] [] [] [] in
+  let target := of_string "/d/out.dict" in
+  (if false then fs_lookup (norm_path target) [] else None) = None /\
+  write_sd [] false target false false s 5 = Some (Ok (of_string
+"/*---------------------------------*- C++ -*----------------------------------*\
+filetype dictionary; coding utf-8; version 0.1; local --; purpose --;
+\*----------------------------------------------------------------------------*/
+b                             12;
+// three
+4
+{
+    z                         true;
+    // one
+    -1                        'x  y';
+}
+a
+(
+
+    {
+        q                     1;
+        p                     2;
+    }
+);
+", 5%Z)) /\
+  write_sd [] false target false false (sd_order s) 5 = Some (Ok (of_string
+"/*---------------------------------*- C++ -*----------------------------------*\
+filetype dictionary; coding utf-8; version 0.1; local --; purpose --;
+\*----------------------------------------------------------------------------*/
+4
+{
+    -1                        'x  y';
+    // one
+    z                         true;
+}
+// three
+a
+(
+
+    {
+        q                     1;
+        p                     2;
+    }
+);
+b                             12;
+", 5%Z)) /\
+  write_sd [] false target false true s 5 = write_sd [] false target false false (sd_order s) 5.
+Proof.
+  intros s target. assert (H : (if false then fs_lookup (norm_path target) [] else None) = (None : option funit)) by reflexivity.
+  split; [exact H|]. split; [vm_compute; reflexivity|]. split; [vm_compute; reflexivity|].
+  exact (C15_write_option [] false target false s 5%Z H).
+Qed.
+
+(* ---- the order option of DictParser.parse (no append): read without ordering, order the SDict once, write without
+   ordering (the second ordering, inside write, changes nothing) -------------------------------------------------- *)
+Theorem C15_parse_option : forall fs src includes comments scope output count,
+  parse_model fs src includes false true comments scope output count =
+  match output_kind output with
+  | None => None
+  | Some foam0 =>
+      match read_opts fs src includes false comments scope count with
+      | None => None
+      | Some (Raise e) => Some (Raise e)
+      | Some (Ok (s, c)) =>
+          let name := target_file_name (base_name src) (Some (of_string "parsed")) scope output in
+          let target := dir_of src ++ [c_slash] ++ name in
+          let foam := foam0 || ends_with (of_string ".foam") name in
+          if ends_with (of_string ".json") name || ends_with (of_string ".xml") name then None else
+          match write_sd fs foam target false false (sd_order s) c with
+          | None => None
+          | Some (Raise e) => Some (Raise e)
+          | Some (Ok (txt, c')) => Some (Ok (dir_of src ++ [c_slash] ++ name, txt, c'))
+          end
+      end
+  end.
+Proof. exact parse_order_option. Qed.
+Print Assumptions C15_parse_option.
+
+(* ---- the writer domain of C01 is closed under ordering: every side condition of C01_roundtrip has the same value on
+   the ordered tree, and re-typing the leaves commutes with ordering ------------------------------------------------ *)
+Theorem C15_writer_domain_closed : forall t,
+  wf (order_tree t) = wf t /\ writable_tree (order_tree t) = writable_tree t /\ simple_tree (order_tree t) = simple_tree t /\
+  nq (order_tree t) = nq t /\ (forall b, quoted_within b (order_tree t) = quoted_within b t) /\
+  (forall f, map_leaves f (order_tree t) = order_tree (map_leaves f t)).
+Proof. exact writer_domain_closed. Qed.
+Print Assumptions C15_writer_domain_closed.
+
+(* ---- an ordered file reads back to the same data as the unordered one: on the writer domain of C01_roundtrip, the
+   file written from the ordered dict is read back (same counter) as the ORDERED SDict of what is read back from the
+   file written from the dict as it is; so both hold the same value under every key path (lists and leaves the very
+   same value, dicts the ordered dict) ------------------------------------------------------------------------------ *)
+Theorem C15_ordered_file_reads_back : forall kvs dirc count,
+  wf (Dict kvs) = true -> writable_tree (Dict kvs) = true ->
+  (-1 <= count)%Z -> (Z.of_nat (nq (Dict kvs)) <= 1000000)%Z -> quoted_within 11 (Dict kvs) = true ->
+  let okvs := kvs_of (order_tree (Dict kvs)) in
+  (wf (Dict okvs) = true /\ writable_tree (Dict okvs) = true /\ nq (Dict okvs) = nq (Dict kvs) /\ quoted_within 11 (Dict okvs) = true) /\
+  exists s count',
+    parse_string true dirc count (to_string_plain kvs) = Ok (mkParsed s count') /\
+    parse_string true dirc count (to_string_plain okvs) = Ok (mkParsed (sd_order s) count') /\
+    sd_data s = kvs_of (map_leaves written_value (Dict kvs)) /\
+    sd_data (sd_order s) = kvs_of (order_tree (Dict (sd_data s))) /\
+    forall p, get_dpath (Dict (sd_data (sd_order s))) p = option_map order_child (get_dpath (Dict (sd_data s)) p).
+Proof. exact ordered_file_reads_back. Qed.
+Print Assumptions C15_ordered_file_reads_back.
+
+(* non-vacuity: int and str keys at two levels, a list of dicts with unsorted keys (keeps its order), strings with
+   blanks, a delimiter and an apostrophe; both texts and both read-backs *)
+Example C15_ordered_file_reads_back_nonvacuous :
+  let d := [(KS (of_string "zeta"), Leaf (SStr (of_string "two  words")));
+            (KI 7, Dict [(KS (of_string "y"), Leaf (SInt 2)); (KI 3, Leaf (SStr (of_string "a b; c")));
+                         (KS (of_string "x"), Leaf (SBool true)); (KI (-1), Leaf SNone)]);
+            (KS (of_string "alpha"), Lst [Dict [(KS (of_string "q"), Leaf (SInt 1)); (KS (of_string "p"), Leaf (SStr (of_string "it's")))];
+                                          Leaf (SInt 7)]);
+            (KI (-2), Leaf (SFloat (of_string "1.5")))] in
+  let od := [(KI (-2), Leaf (SFloat (of_string "1.5")));
+             (KI 7, Dict [(KI (-1), Leaf SNone); (KI 3, Leaf (SStr (of_string "a b; c")));
+                          (KS (of_string "x"), Leaf (SBool true)); (KS (of_string "y"), Leaf (SInt 2))]);
+             (KS (of_string "alpha"), Lst [Dict [(KS (of_string "q"), Leaf (SInt 1)); (KS (of_string "p"), Leaf (SStr (of_string "it's")))];
+                                           Leaf (SInt 7)]);
+             (KS (of_string "zeta"), Leaf (SStr (of_string "two  words")))] in
+  wf (Dict d) = true /\ writable_tree (Dict d) = true /\ (Z.of_nat (nq (Dict d)) <= 1000000)%Z /\ quoted_within 11 (Dict d) = true /\
+  kvs_of (order_tree (Dict d)) = od /\
+  to_string_plain d = of_string
+"zeta                          'two  words';
+7
+{
+    y                         2;
+    3                         'a b; c';
+    x                         true;
+    -1                        NULL;
+}
+alpha
+(
+
+    {
+        q                     1;
+        p                     ""it's"";
+    }
+    7
+);
+-2                            1.5;
+" /\
+  to_string_plain od = of_string
+"-2                            1.5;
+7
+{
+    -1                        NULL;
+    3                         'a b; c';
+    x                         true;
+    y                         2;
+}
+alpha
+(
+
+    {
+        q                     1;
+        p                     ""it's"";
+    }
+    7
+);
+zeta                          'two  words';
+" /\
+  parse_string true [] 7 (to_string_plain d) = Ok (mkParsed (mkSD d [] [] [] []) 10) /\
+  parse_string true [] 7 (to_string_plain od) = Ok (mkParsed (mkSD od [] [] [] []) 10) /\
+  (exists s count',
+    parse_string true [] 7 (to_string_plain d) = Ok (mkParsed s count') /\
+    parse_string true [] 7 (to_string_plain (kvs_of (order_tree (Dict d)))) = Ok (mkParsed (sd_order s) count') /\
+    forall p, get_dpath (Dict (sd_data (sd_order s))) p = option_map order_child (get_dpath (Dict (sd_data s)) p)).
+Proof.
+  intros d od.
+  assert (Hw : wf (Dict d) = true) by (vm_compute; reflexivity).
+  assert (Hwr : writable_tree (Dict d) = true) by (vm_compute; reflexivity).
+  assert (Hn : (Z.of_nat (nq (Dict d)) <= 1000000)%Z) by (vm_compute; discriminate).
+  assert (Hq : quoted_within 11 (Dict d) = true) by (vm_compute; reflexivity).
+  assert (Hc : (-1 <= 7)%Z) by discriminate.
+  refine (conj Hw (conj Hwr (conj Hn (conj Hq _)))).
+  split; [vm_compute; reflexivity|]. split; [vm_compute; reflexivity|]. split; [vm_compute; reflexivity|].
+  split; [vm_compute; reflexivity|]. split; [vm_compute; reflexivity|].
+  destruct (C15_ordered_file_reads_back d [] 7%Z Hw Hwr Hc Hn Hq) as [_ (s & c' & E1 & E2 & _ & _ & E5)].
+  exists s, c'. exact (conj E1 (conj E2 E5)).
+Qed.
+
+(* ---- ordering when the file is written = ordering when the file is read: DictReader.read (include processing off,
+   comments on, no scope) of the file written from the ordered dict -- with or without order=True -- returns exactly
+   what read with order=True returns for the file written from the dict as it is -------------------------------------- *)
+Theorem C15_order_at_write_or_at_read : forall kvs root count fsU fsO,
+  wf (Dict kvs) = true -> writable_tree (Dict kvs) = true ->
+  (-1 <= count)%Z -> (Z.of_nat (nq (Dict kvs)) <= 1000000)%Z -> quoted_within 11 (Dict kvs) = true ->
+  fs_lookup (norm_path root) fsU = Some (FNative (to_string_plain kvs)) ->
+  fs_lookup (norm_path root) fsO = Some (FNative (to_string_plain (kvs_of (order_tree (Dict kvs))))) ->
+  exists s c',
+    read_opts fsU root false false true [] count = Some (Ok (s, c')) /\
+    read_opts fsU root false true true [] count = Some (Ok (sd_order s, c')) /\
+    read_opts fsO root false false true [] count = Some (Ok (sd_order s, c')) /\
+    read_opts fsO root false true true [] count = Some (Ok (sd_order s, c')) /\
+    sd_data s = kvs_of (map_leaves written_value (Dict kvs)).
+Proof. exact order_at_write_or_at_read. Qed.
+Print Assumptions C15_order_at_write_or_at_read.
+
+Example C15_order_at_write_or_at_read_nonvacuous :
+  let d := [(KS (of_string "zeta"), Leaf (SStr (of_string "two  words")));
+            (KI 7, Dict [(KS (of_string "y"), Leaf (SInt 2)); (KI 3, Leaf (SStr (of_string "a b; c")));
+                         (KS (of_string "x"), Leaf (SBool true)); (KI (-1), Leaf SNone)]);
+            (KS (of_string "alpha"), Lst [Dict [(KS (of_string "q"), Leaf (SInt 1)); (KS (of_string "p"), Leaf (SStr (of_string "it's")))];
+                                          Leaf (SInt 7)]);
+            (KI (-2), Leaf (SFloat (of_string "1.5")))] in
+  let od := [(KI (-2), Leaf (SFloat (of_string "1.5")));
+             (KI 7, Dict [(KI (-1), Leaf SNone); (KI 3, Leaf (SStr (of_string "a b; c")));
+                          (KS (of_string "x"), Leaf (SBool true)); (KS (of_string "y"), Leaf (SInt 2))]);
+             (KS (of_string "alpha"), Lst [Dict [(KS (of_string "q"), Leaf (SInt 1)); (KS (of_string "p"), Leaf (SStr (of_string "it's")))];
+                                           Leaf (SInt 7)]);
+             (KS (of_string "zeta"), Leaf (SStr (of_string "two  words")))] in
+  let root := of_string "/d/x.dict" in
+  let fsU : fsys := [(root, FNative (to_string_plain d))] in
+  let fsO : fsys := [(root, FNative (to_string_plain (kvs_of (order_tree (Dict d)))))] in
+  wf (Dict d) = true /\ writable_tree (Dict d) = true /\ (Z.of_nat (nq (Dict d)) <= 1000000)%Z /\ quoted_within 11 (Dict d) = true /\
+  fs_lookup (norm_path root) fsU = Some (FNative (to_string_plain d)) /\
+  fs_lookup (norm_path root) fsO = Some (FNative (to_string_plain (kvs_of (order_tree (Dict d))))) /\
+  read_opts fsU root false false true [] (-1) = Some (Ok (mkSD d [] [] [] [], 2%Z)) /\
+  read_opts fsO root false false true [] (-1) = Some (Ok (mkSD od [] [] [] [], 2%Z)) /\
+  (exists s c',
+    read_opts fsU root false false true [] (-1) = Some (Ok (s, c')) /\
+    read_opts fsU root false true true [] (-1) = Some (Ok (sd_order s, c')) /\
+    read_opts fsO root false false true [] (-1) = Some (Ok (sd_order s, c')) /\
+    read_opts fsO root false true true [] (-1) = Some (Ok (sd_order s, c')) /\
+    sd_data s = kvs_of (map_leaves written_value (Dict d))).
+Proof.
+  intros d od root fsU fsO.
+  assert (Hw : wf (Dict d) = true) by (vm_compute; reflexivity).
+  assert (Hwr : writable_tree (Dict d) = true) by (vm_compute; reflexivity).
+  assert (Hn : (Z.of_nat (nq (Dict d)) <= 1000000)%Z) by (vm_compute; discriminate).
+  assert (Hq : quoted_within 11 (Dict d) = true) by (vm_compute; reflexivity).
+  assert (Hc : (-1 <= -1)%Z) by discriminate.
+  assert (HU : fs_lookup (norm_path root) fsU = Some (FNative (to_string_plain d))) by (vm_compute; reflexivity).
+  assert (HO : fs_lookup (norm_path root) fsO = Some (FNative (to_string_plain (kvs_of (order_tree (Dict d))))))
+    by (vm_compute; reflexivity).
+  refine (conj Hw (conj Hwr (conj Hn (conj Hq (conj HU (conj HO _)))))).
+  split; [vm_compute; reflexivity|]. split; [vm_compute; reflexivity|].
+  exact (C15_order_at_write_or_at_read d root (-1)%Z fsU fsO Hw Hwr Hc Hn Hq HU HO).
+Qed.
